@@ -6,7 +6,7 @@ from .common import generic_replay
 def run(tier):
     # both Riemann solvers: the general-EOS solver (seconds per solve) on a seeded sample of the same lattice
     return relcheck.rel_check("C09", ("SYM.",), ["RiemannIG", "RiemannGen", "Kenamond1", "Kenamond2", "Kenamond3", "DSDcyl"],
-                              ["Mirror", "Boost", "Rigid"], tier, sample={"RiemannGen": 48})
+                              ["Mirror", "Boost", "Rigid"], tier, sample={"RiemannGen": 48, "RiemannIG": (None, 30000)})      # thorough: 30 000 of the 198 000 closed-form pairs
 
 
 def replay(path):
